@@ -28,7 +28,7 @@ SPEC_DIR = "usb2ctl"
 
 _NOTE = ("Host assumptions (Env): SETUP tokens go to endpoint 0 and their data packet is DATA0; data packets follow a "
          "SETUP/OUT token; the host only ACKs data it was just sent; the status stage of a control read is a DATA1 "
-         "ZLP; no further IN after the data stage ended; implemented standard requests are pursued only in their "
+         "ZLP; the host also ACKs data of devices at other addresses (the device sees that ACK, not the token); no further IN after the data stage ended; implemented standard requests are pursued only in their "
          "canonical form [USB2.0 9.4] (a non-canonical one is only checked up to its SETUP ACK). Descriptor contents "
          "are not judged here (engine usb2desc): any payload of legal length passes. Full speed over UTMI (12 MHz "
          "timer table), response window 2..18 bit times. Trusted base: TLC, amaranth.sim, the host/PHY model "
@@ -965,10 +965,11 @@ def _common(rep, prop):
                 "non-trivial = the device answered, a setup strobe fired, or the host packet was a data/handshake/"
                 "reset; distinct by (action, pid, crc ok, payload length, endpoint, response PID, response length, "
                 "strobes, address set, configuration)")
-    for a in _NOTE.split(". ")[:6]:
+    for a in _NOTE.split(". ")[:7]:
         rep.assume(a.strip().rstrip(".") + ".")
-    rep.assume("open known findings are carved out by KF_C06b/KF_C06c/KF_C07/KF_C08 of Usb2Ctl.tla; clean stimuli avoid "
-               "them, witness stimuli hit exactly one")
+    rep.assume("the open known finding (foreign-address ACK while a control packet of the device is outstanding) is carved "
+               "out by KF_FA of Usb2Ctl.tla: clean stimuli avoid it, witness stimuli FA-* hit it; the witnesses of the "
+               "repaired findings stay in as regression")
     model_check(rep, prop)
     run_device(rep, prop)
 
